@@ -61,3 +61,21 @@ def apply_ranges(q, params, tag="p"):
             q.bounds(nm, r[0], r[1], lo_strict=r[2])
         elif k.split("_")[-1].startswith("g"):
             q.bounds(nm, 0.0, None)
+
+
+def exp_apps_with(node, name):
+    """exp applications reachable from node whose argument depends on variable `name`"""
+    return [n for n in sym.topo([node]) if n.op == "uf" and n.args[0] == "exp" and name in sym.support(n.args[1])]
+
+
+def decompose_update(out, ref, dtname="dt"):
+    """Split  out == ref  for an exponential-Euler update into (i) equality of the arguments of the
+    dt-dependent exp applications and (ii) equality of the remaining rational expressions with those
+    exp applications replaced by one shared atom.  Returns (arg_pairs, (out_abs, ref_abs)) or None."""
+    ea, eb = exp_apps_with(out, dtname), exp_apps_with(ref, dtname)
+    if len(ea) != 1 or len(eb) != 1:
+        return None
+    atom = var("EXPDT")
+    oa = sym.subst(out, {ea[0].id: atom})
+    rb = sym.subst(ref, {eb[0].id: atom})
+    return [(ea[0].args[1], eb[0].args[1])], (oa, rb)
